@@ -489,12 +489,11 @@ func (m PIMD) Coq() string {
 
 // sectionBytes: what reading Descriptor.GetReader() to the end yields.
 func sectionBytes(img []byte, d SDesc) []byte {
-	if d.Size == 0 || d.Off < 0 || d.Off >= int64(len(img)) {
+	if d.Size <= 0 || d.Off < 0 || d.Off >= int64(len(img)) {
 		return nil
 	}
 	end := d.Off + d.Size
-	// a negative size makes io.NewSectionReader's limit test wrap: the section runs to the end
-	if d.Size < 0 || end > int64(len(img)) || end < d.Off {
+	if end > int64(len(img)) || end < d.Off {
 		end = int64(len(img))
 	}
 	return img[d.Off:end]
